@@ -33,14 +33,23 @@ THEOREMS = [
     "SleapVerif.C16.recall_monotone_under_truncation_partial",
     "SleapVerif.C16.recall_deletion_counterexample",
     "SleapVerif.C16.recall_frame_removal_counterexample",
+    "SleapVerif.C16.pairs_sound",
+    "SleapVerif.C16.pairing_injective",
+    "SleapVerif.C16.perfect_pairs",
+    "SleapVerif.C16.perfect_evaluation",
+    "SleapVerif.C16.pairs_total_partial",
+    "SleapVerif.C16.pairs_total_asIs_counterexample",
     "SleapVerif.C16.perfect_matching",
     "SleapVerif.C16.perfect_scores",
+    "SleapVerif.C16.perfect_AP",
+    "SleapVerif.C16.percentile_monotone",
 ]
 
 EPS = Fraction(2) ** -52
 TOL = 1e-9
 SIG_OUTSCORED = "deleted_prediction_outscored_a_better_match"
 SIG_FRAME = "prediction_frame_removed_drops_gt_from_count"
+SIG_NONHDF5 = "non_hdf5_video_backend"
 
 
 def q16(rng, lo, hi):
@@ -94,32 +103,116 @@ def main(chk: Check):
             cols = [ev.compute_oks(G, Pm[j:j + 1], **kw) for j in range(Pm.shape[0])]
             return np.concatenate(cols, axis=1) if cols else np.zeros((G.shape[0], 0))
 
+    # ------------------------------------------------------------------ videos
+    # A video key is (kind, file, dataset): kind 0 = HDF5-backed (`dataset` is the HDF5 dataset inside
+    # `file`; several videos embedded in one .pkg.slp share the filename and differ by dataset only),
+    # kind 1 = a Video whose backend is not opened (None), kind 2 = MediaVideo (neither has `dataset`).
+    # ("asset",) is the video object of tests/assets/minimal_instance.pkg.slp = key (0, 9, 0).
+    import atexit, shutil, tempfile
+    import h5py
+    from sleap_io.io.video_reading import HDF5Video, MediaVideo
+    tmpdir = tempfile.mkdtemp(prefix="verif_c16_")
+    atexit.register(lambda: shutil.rmtree(tmpdir, ignore_errors=True))
+    pkg_files = []
+    for k in range(2):
+        fn = f"{tmpdir}/pack{k}.pkg.slp"
+        with h5py.File(fn, "w") as fh:
+            for d in range(3):
+                fh.create_dataset(f"video{d}/video", data=np.zeros((2, 8, 8, 1), dtype="uint8"))
+        pkg_files.append(fn)
+
+    def make_video(key):
+        key = tuple(key)
+        if key == ("asset",):
+            return video
+        kind, fi, ds = key
+        if kind == 0:
+            be = HDF5Video(filename=pkg_files[fi], dataset=f"video{ds}/video", keep_open=False,
+                           source_filename=f"session{fi}_{ds}.mp4")
+            return sio.Video(filename=pkg_files[fi], backend=be)
+        if kind == 1:
+            return sio.Video(filename=f"clip{fi}.mp4", open_backend=False)
+        return sio.Video(filename=f"movie{fi}.mp4", backend=MediaVideo(filename=f"movie{fi}.mp4", keep_open=False))
+
+    def key_tokens(key):
+        key = tuple(key)
+        if key == ("asset",):
+            return "0 9 0"
+        return f"{key[0]} {key[1]} " + ("nan" if key[2] is None else str(key[2]))
+
+    def norm(case):
+        """fill the defaults of the single-video case format (known-finding witnesses)"""
+        c = dict(case)
+        c.setdefault("videos", [("asset",)])
+        c.setdefault("pr_videos", list(c["videos"]))
+        c.setdefault("share_videos", True)
+        c["frames"] = [dict(f, video=f.get("video", 0), frame_idx=f.get("frame_idx", i))
+                       for i, f in enumerate(c["frames"])]
+        return c
+
     # ------------------------------------------------------------------ building Labels
     def build(case):
-        """case = {n_nodes, frames:[{gt:[pts], pr: None | [(score, pts)], extra_pred_in_gt: bool}]}"""
+        """case = {n_nodes, videos:[key], pr_videos:[key], share_videos, frames:[{video, frame_idx, gt:[pts],
+        pr: None | [(score, pts)], extra_pred_in_gt}]}.  A prediction frame lives on the prediction
+        video with the same key as the gt frame's video (it cannot exist when pr_videos lacks that key)."""
+        case = norm(case)
         sk = sio.Skeleton(nodes=[f"n{i}" for i in range(case["n_nodes"])])
-        glf, plf, gi_all, pi_all = [], [], [], []
-        for idx, f in enumerate(case["frames"]):
+        gvid = [make_video(k) for k in case["videos"]]
+        gkeys = [tuple(k) for k in case["videos"]]
+        pvid = [gvid[gkeys.index(tuple(k))] if (case["share_videos"] and tuple(k) in gkeys) else make_video(k)
+                for k in case["pr_videos"]]
+        pkeys = [tuple(k) for k in case["pr_videos"]]
+        glf, plf, gi_all, pi_all, pr_pos = [], [], [], [], []
+        for f in case["frames"]:
             gi = [sio.Instance.from_numpy(np.array(g, float), sk) for g in f["gt"]]
             insts = list(gi)
             if f.get("extra_pred_in_gt"):
                 insts.append(sio.PredictedInstance.from_numpy(np.array(f["gt"][0], float) + 1.0, sk,
                                                               point_scores=np.ones(case["n_nodes"]), score=0.5))
-            glf.append(sio.LabeledFrame(video=video, frame_idx=idx, instances=insts))
+            glf.append(sio.LabeledFrame(video=gvid[f["video"]], frame_idx=f["frame_idx"], instances=insts))
             gi_all.append(gi)
-            if f["pr"] is not None:
+            key = gkeys[f["video"]]
+            if f["pr"] is not None and key in pkeys:
                 pi = [sio.PredictedInstance.from_numpy(np.array(p, float), sk, point_scores=np.ones(case["n_nodes"]),
                                                        score=float(s)) for s, p in f["pr"]]
-                plf.append(sio.LabeledFrame(video=video, frame_idx=idx, instances=pi))
+                pr_pos.append((len(plf), pkeys.index(key)))
+                plf.append(sio.LabeledFrame(video=pvid[pkeys.index(key)], frame_idx=f["frame_idx"], instances=pi))
                 pi_all.append(pi)
             else:
+                pr_pos.append(None)
                 pi_all.append(None)
-        gl = sio.Labels(videos=[video], skeletons=[sk], labeled_frames=glf)
-        pl = sio.Labels(videos=[video], skeletons=[sk], labeled_frames=plf)
-        return gl, pl, gi_all, pi_all
+        gl = sio.Labels(videos=gvid, skeletons=[sk], labeled_frames=glf)
+        pl = sio.Labels(videos=pvid, skeletons=[sk], labeled_frames=plf)
+        return gl, pl, gi_all, pi_all, dict(glf=glf, plf=plf, pr_pos=pr_pos, case=case)
+
+    def pairs_line(case, gi_all, info):
+        c = info["case"]
+        gf = [(f["video"], f["frame_idx"], len(gi)) for f, gi in zip(c["frames"], gi_all)]
+        pf = [(pp[1], f["frame_idx"]) for f, pp in zip(c["frames"], info["pr_pos"]) if pp is not None]
+        return ("pairs " + lst(c["videos"], key_tokens) + " " + lst(c["pr_videos"], key_tokens) + " "
+                + lst(gf, lambda x: f"{x[0]} {x[1]} {x[2]}") + " " + lst(pf, lambda x: f"{x[0]} {x[1]}"))
+
+    def parse_pairs(out, info):
+        """model pairs as (gt frame position, case-frame position of the prediction frame)"""
+        t = out.split()
+        ppos2case = {pp[0]: q for q, pp in enumerate(info["pr_pos"]) if pp is not None}
+        k = int(t[1])
+        return t[0], [(int(t[2 + 2 * i]), ppos2case[int(t[3 + 2 * i])]) for i in range(k)]
+
+    def impl_pairs(e, info):
+        out = []
+        for a, b in e.frame_pairs:
+            g = next((i for i, x in enumerate(info["glf"]) if x is a), -1)
+            pp = next((i for i, x in enumerate(info["plf"]) if x is b), -1)
+            q = next((q for q, v in enumerate(info["pr_pos"]) if v is not None and v[0] == pp), -1)
+            out.append((g, q))
+        return out
+
+    last = {}
 
     def run_impl(case):
-        gl, pl, gi_all, pi_all = build(case)
+        gl, pl, gi_all, pi_all, info = build(case)
+        last["info"] = info
         kw = dict(oks_stddev=case["stddev"], oks_scale=case["scale"], match_threshold=case["thr"])
         r = call(lambda: ev.Evaluator(gl, pl, **kw))
         if r[0] != "ok":
@@ -149,17 +242,19 @@ def main(chk: Check):
         fns = [locate(gi_all, a.instance) for a in e.false_negatives]
         return pairs, fns, m
 
-    def driver_line(case, gi_all, pi_all):
+    def driver_line(case, gi_all, pi_all, pairs):
+        """`eval` line: one frame per frame pair `(gt frame position, case position of the prediction frame)`"""
         fr = []
-        for f, gi, pi in zip(case["frames"], gi_all, pi_all):
+        for gpos, q in pairs:
+            gi, pi = gi_all[gpos], pi_all[q]
             gts = [g.numpy() for g in gi]  # what the code sees (sleap_io: NaN x ⇒ whole point NaN)
-            prs = [] if pi is None else [p.numpy() for p in pi]
-            scores = [] if pi is None else [float(p.score) for p in pi]
+            prs = [p.numpy() for p in pi]
+            scores = [float(p.score) for p in pi]
             if gts and prs:
                 M = compute_oks_any(np.stack(gts), np.stack(prs), stddev=case["stddev"], scale=case["scale"])
             else:
                 M = np.zeros((len(gts), len(prs)))
-            fr.append(("1" if pi is not None else "0") + " " + lst(gts, fpts) + " "
+            fr.append("1 " + lst(gts, fpts) + " "
                       + lst(list(zip(scores, prs)), lambda sp: rat(sp[0]) + " " + fpts(sp[1])) + " "
                       + " ".join(rat(nn(v)) for v in M.reshape(-1)))
         return (f"eval {rat(case['thr'])} {rat(EPS)} {lst(MT, rat)} {lst(RT, rat)} {lst(PT, rat)} "
@@ -190,13 +285,16 @@ def main(chk: Check):
         d["mPCK"] = unrat(parts[3][0])
         d["bits"] = parts[4][0] if parts[4] else ""
         d["pck_margin"] = unrat(parts[5][0])
+        d["pct"] = [unrat(x) for x in parts[6]]
         return d
 
     # ------------------------------------------------------------------ comparison
-    def compare(case, res, gi_all, pi_all, out):
-        """returns list of (what, impl, model) disagreements"""
+    def compare(case, res, gi_all, pi_all, out, fpairs):
+        """returns list of (what, impl, model) disagreements; `fpairs` = the (agreed) frame pairs"""
         model = parse_model(out)
-        any_pair = any(f["gt"] and f["pr"] is not None for f in case["frames"])
+        model["pairs"] = [(fpairs[f][0], g, p_, v) for f, g, p_, v in model["pairs"]]
+        model["fns"] = [(fpairs[f][0], g) for f, g in model["fns"]]
+        any_pair = len(fpairs) > 0
         if res[0] != "ok":
             if not any_pair and res[0] == "raise" and "Empty Frame Pairs" in res[2]:
                 return []
@@ -256,6 +354,9 @@ def main(chk: Check):
             dis.append(("dists", idists[:10], model["dists"][:10]))
         if not close(nn(dm["avg"]), model["avg"]):
             dis.append(("avg dist", dm["avg"], model["avg"]))
+        ipct = [nn(dm[f"p{q}"]) for q in (50, 75, 90, 95, 99)]
+        if not all(close(a, b) for a, b in zip(ipct, model["pct"])):
+            dis.append(("distance percentiles", ipct, model["pct"]))
         pm = m["pck_metrics"]
         if model["pck_margin"] is not None and model["pck_margin"] < 1e-9 and model["pck_margin"] != 0.0:
             chk.knife_edges += 1
@@ -300,6 +401,9 @@ def main(chk: Check):
             pc = np.asarray(m["pck_metrics"]["pcks"], float).mean(axis=(0, 1))
             if np.any(np.diff(pc) < -1e-12):
                 bad.append(("PCK decreases with the pixel threshold", pc.tolist()))
+        pcts = [nn(m["distance_metrics"][f"p{q}"]) for q in (50, 75, 90, 95, 99)]
+        if all(x is not None for x in pcts) and any(b < a - 1e-12 for a, b in zip(pcts, pcts[1:])):
+            bad.append(("distance percentiles not monotone", pcts))
         for k in ("precision", "recall"):
             x = nn(m["visibility_metrics"][k])
             if x is not None and not (0 <= x <= 1):
@@ -357,7 +461,7 @@ def main(chk: Check):
                 if mode == "arbitrary":
                     # structural predicate: a deleted prediction held a gt in the original matching and a
                     # kept prediction of the same frame now gets a better (or its first) match
-                    gl2, pl2, gi2, pi2 = build(new)
+                    gl2, pl2, gi2, pi2, _ = build(new)
                     e2 = ev.Evaluator(gl2, pl2, oks_stddev=case["stddev"], oks_scale=case["scale"],
                                       match_threshold=case["thr"])
                     after_map = {}
@@ -420,7 +524,7 @@ def main(chk: Check):
     def gen_case(perfect=False):
         n_nodes = rng.choice([2, 3, 3, 4, 5])
         frames = []
-        for _ in range(rng.choice([1, 1, 2, 3, 4])):
+        for _ in range(rng.choice([1, 2, 2, 3, 4, 5, 6])):
             crowded = rng.random() < 0.5
             centre = (q16(rng, 60, 300), q16(rng, 60, 300))
             n_gt = rng.choice([1, 1, 2, 2, 3, 4]) if (perfect or rng.random() < 0.93) else 0
@@ -457,8 +561,58 @@ def main(chk: Check):
                     pr.append((rng.random(), gen_instance(n_nodes)))  # false positives
                 rng.shuffle(pr)
             frames.append({"gt": gts, "pr": pr, "extra_pred_in_gt": bool(gts) and rng.random() < 0.1})
-        return {"n_nodes": n_nodes, "frames": frames, "stddev": rng.choice([0.025, 0.05, 0.1]),
+        case = {"n_nodes": n_nodes, "frames": frames, "stddev": rng.choice([0.025, 0.05, 0.1]),
                 "scale": rng.choice([None, None, q16(rng, 50, 2000)]), "thr": rng.choice([0, 0, 0, 0.3])}
+        assign_videos(case, perfect)
+        return case
+
+    def assign_videos(case, perfect):
+        """1-3 videos: embedded in one file (same filename, different dataset), in different files, or a
+        mix; frames of different videos deliberately share frame indices; the prediction labels list the
+        videos in the same order, permuted, with one missing or with an extra one, as the same or as
+        independently created Video objects; a few cases use backends without `dataset` (F-C16c)."""
+        u = rng.random()
+        nv = 1 if u < 0.4 else (2 if u < 0.8 else 3)
+        if not perfect and rng.random() < 0.07:
+            kind = rng.choice([1, 2])
+            keys = [(kind, i, None) for i in range(nv)]
+        elif nv == 1 and rng.random() < 0.5:
+            keys = [("asset",)]
+        else:
+            layout = rng.choice(["same_file", "same_file", "diff_files", "mixed"])
+            fi = rng.randrange(2)
+            if layout == "same_file":
+                keys = [(0, fi, d) for d in rng.sample(range(3), nv)]
+            elif layout == "diff_files":
+                keys = [(0, (fi + i) % 2, rng.randrange(3) if i < 2 else 2 - 0) for i in range(min(nv, 2))]
+                if nv == 3:
+                    keys.append((0, fi, (keys[0][2] + 1) % 3))
+            else:
+                keys = [(0, fi, 0), (0, 1 - fi, 0), (0, fi, 1)][:nv]
+        nv = len(keys)
+        case["videos"] = keys
+        nxt = [0] * nv
+        for f in case["frames"]:
+            v = rng.randrange(nv)
+            f["video"], f["frame_idx"] = v, nxt[v]
+            nxt[v] += 1
+        prv = list(keys)
+        if not perfect:
+            w = rng.random()
+            if w < 0.2:
+                rng.shuffle(prv)
+            elif w < 0.3 and nv > 1:
+                prv.pop(rng.randrange(nv))
+            elif w < 0.4:
+                extra = [k for k in [(0, 0, 0), (0, 0, 1), (0, 1, 0), (0, 1, 2), (0, 0, 2)] if k not in keys]
+                prv.insert(rng.randrange(len(prv) + 1), rng.choice(extra))
+        elif rng.random() < 0.3:
+            rng.shuffle(prv)
+        case["pr_videos"] = prv
+        case["share_videos"] = rng.random() < 0.5
+        for f in case["frames"]:
+            if tuple(keys[f["video"]]) not in [tuple(k) for k in prv]:
+                f["pr"] = None
 
     def distinguishable(case):
         for f in case["frames"]:
@@ -474,9 +628,13 @@ def main(chk: Check):
 
     # ------------------------------------------------------------------ known findings: replay witnesses
     def case_from_witness(w):
-        return {"n_nodes": w["n_nodes"], "frames": [dict(f, pr=None if f["pr"] is None else [tuple(x) for x in f["pr"]])
-                                                    for f in w["frames"]],
-                "stddev": 0.025, "scale": None, "thr": 0}
+        c = {"n_nodes": w["n_nodes"], "frames": [dict(f, pr=None if f["pr"] is None else [tuple(x) for x in f["pr"]])
+                                                 for f in w["frames"]],
+             "stddev": 0.025, "scale": None, "thr": 0}
+        for k in ("videos", "pr_videos", "share_videos"):
+            if k in w:
+                c[k] = [tuple(x) for x in w[k]] if k != "share_videos" else w[k]
+        return c
 
     for fid in ("F-C16", "F-C16b"):
         ent = next((f for f in chk.known if f["id"] == fid), None)
@@ -488,37 +646,83 @@ def main(chk: Check):
         chk.known_replay(fid, still_fails=bool(b is not None and a is not None and np.any(a > b + 1e-12)),
                          detail=f"before={None if b is None else b.tolist()} after={None if a is None else a.tolist()}")
 
+    ent = next((f for f in chk.known if f["id"] == "F-C16c"), None)
+    if ent is not None:
+        r, _, _ = run_impl(case_from_witness(ent["witness"]))
+        chk.known_replay("F-C16c", still_fails=(r[0] == "raise" and r[1] == "AttributeError"), detail=str(r)[:200])
+
     # ------------------------------------------------------------------ main loop
     n_cases = chk.n(330, 4000)
     n_perfect = chk.n(70, 800)
-    cases = [("gen", gen_case()) for _ in range(n_cases)]
+    # fixed first case: two videos embedded in one file, same frame indices, different poses, perfect
+    # predictions (the situation of a multi-video .pkg.slp)
+    two = {"n_nodes": 3, "videos": [(0, 0, 0), (0, 0, 1)], "pr_videos": [(0, 0, 0), (0, 0, 1)], "share_videos": True,
+           "stddev": 0.025, "scale": None, "thr": 0, "frames": []}
+    for (v, fi), pts in {(0, 0): [[10, 12], [20, 22], [30, 18]], (0, 1): [[11, 13], [21, 23], [31, 19]],
+                         (1, 0): [[40, 45], [48, 30], [55, 52]], (1, 1): [[42, 44], [50, 31], [57, 50]]}.items():
+        pts = [[float(x), float(y)] for x, y in pts]
+        two["frames"].append({"video": v, "frame_idx": fi, "gt": [pts], "pr": [(0.9, [list(q) for q in pts])]})
+    cases = [("perfect", two)] + [("gen", gen_case()) for _ in range(n_cases)]
     k = 0
     while k < n_perfect:
         c = gen_case(perfect=True)
         if distinguishable(c):
             cases.append(("perfect", c)); k += 1
-    impls, lines = [], []
+    impls, lines1 = [], []
     for kind, case in cases:
         res, gi_all, pi_all = run_impl(case)
-        impls.append((res, gi_all, pi_all))
-        lines.append(driver_line(case, gi_all, pi_all))
-    outs = run_driver("C16.lean", lines)
-    for (kind, case), (res, gi_all, pi_all), line, out in zip(cases, impls, lines, outs):
-        dis = compare(case, res, gi_all, pi_all, out)
-        npairs = len(res[1].positive_pairs) if res[0] == "ok" else 0
-        tags = [kind, f"frames{len(case['frames'])}", "ok" if res[0] == "ok" else "raise",
-                "pairs0" if npairs == 0 else "pairs+"]
+        info = last["info"]
+        impls.append((res, gi_all, pi_all, info))
+        lines1.append(pairs_line(case, gi_all, info))
+    outs1 = run_driver("C16.lean", lines1)
+    todo, lines2 = [], []
+    for (kind, case), (res, gi_all, pi_all, info), out1 in zip(cases, impls, outs1):
+        asis, mp = parse_pairs(out1, info)
+        nvid = len(info["case"]["videos"])
+        tags = [kind, f"frames{len(case['frames'])}", f"videos{nvid}", "ok" if res[0] == "ok" else "raise",
+                "pairs_asis:" + asis]
+        if len({tuple(k)[:2] for k in info["case"]["videos"]}) < nvid:
+            tags.append("videos_share_a_file")
+        if res[0] == "raise" and res[1] == "AttributeError" and ("dataset" in res[2] or "source_filename" in res[2]):
+            chk.case(None, tags=tags)
+            if asis == "raise":
+                chk.fail("Evaluator raises AttributeError for labels whose videos are not HDF5-backed",
+                         case, observed=res, signatures=[SIG_NONHDF5])
+            else:
+                chk.disagree("Evaluator raised AttributeError where the as-is model does not", case, str(res), asis)
+            continue
+        if res[0] == "ok":
+            ip = impl_pairs(res[1], info)
+            agree = ip == mp
+            if not agree:
+                chk.disagree("find_frame_pairs vs Eval.findFramePairs", case, ip, mp)
+        else:
+            agree = (not mp) and "Empty Frame Pairs" in str(res)
+            if not agree:
+                chk.disagree("Evaluator raised" if mp else "Evaluator raised something else on empty frame pairs",
+                             case, str(res)[:300], mp)
+        if agree and res[0] == "ok":
+            todo.append((kind, case, res, gi_all, pi_all, mp, tags))
+            lines2.append(driver_line(case, gi_all, pi_all, mp))
+        else:
+            chk.case(None, tags=tags)
+            if res[0] == "ok":  # pairing disagrees: search for a failing input with the property oracle
+                oracle_bounds(case, res)
+                if kind == "perfect":
+                    oracle_perfect(case, res)
+    outs2 = run_driver("C16.lean", lines2)
+    for (kind, case, res, gi_all, pi_all, mp, tags), line, out in zip(todo, lines2, outs2):
+        dis = compare(case, res, gi_all, pi_all, out, mp)
+        npairs = len(res[1].positive_pairs)
         chk.case(("eval", line) if npairs else None,
                  sample={"case": case, "AR": np.asarray(res[2]["voc_metrics"]["oks_voc.AR"]).tolist()}
-                 if npairs and len(chk.samples) < 3 else None, tags=tags)
+                 if npairs and len(chk.samples) < 3 else None, tags=tags + ["pairs0" if npairs == 0 else "pairs+"])
         for what, i, mo in dis:
             chk.disagree("Evaluator vs Eval model: " + what, case, str(i)[:400], str(mo)[:400])
-        if res[0] == "ok":
-            oracle_bounds(case, res)
-            if kind == "perfect":
-                oracle_perfect(case, res)
-            oracle_deletion(case, res, gi_all, pi_all, n_try=2 if not dis else 6)
-
+        oracle_bounds(case, res)
+        if kind == "perfect":
+            oracle_perfect(case, res)
+        oracle_deletion(case, res, gi_all, pi_all, n_try=2 if not dis else 6)
 
 if __name__ == "__main__":
     chk = Check(
@@ -528,11 +732,15 @@ if __name__ == "__main__":
             "Lean 4 kernel + Mathlib; the hand-written model SleapVerif.Eval mirrors Evaluator (tied by this correspondence run)",
             "compute_oks values are taken from the implementation (their contract is C15's); float64 ≈ field arithmetic within 1e-9",
             "np.searchsorted on a sorted array = index of the first element >= threshold (binary search correctness)",
-            "sleap_io Labels.find / LabeledFrame.user_instances / Instance.numpy() behave as read",
+            "sleap_io Labels.find / LabeledFrame.user_instances / Instance.numpy() behave as read; Video objects are "
+            "compared by identity, video.filename / backend.dataset carry the key the model uses",
         ],
-        rule="seeded generator: 1-4 frames x 0-4 gt x 0-7 predictions (noisy copies, competing duplicates, misses, false "
-             "positives, missing prediction frames, NaN nodes), 2-5 nodes on the k/16 lattice, stddev/scale/threshold options; "
-             "plus perfect-prediction cases; distinct = distinct driver line with >= 1 positive pair",
+        rule="seeded generator: 1-3 videos (embedded in one HDF5 file = same filename/different dataset, different files, or "
+             "backends without dataset; prediction videos in the same/permuted order, one missing, one extra, shared or "
+             "independent Video objects) x 1-6 frames (frame indices shared across videos) x 0-4 gt x 0-7 predictions (noisy "
+             "copies, competing duplicates, misses, false positives, missing prediction frames, NaN nodes), 2-5 nodes on the "
+             "k/16 lattice, stddev/scale/threshold options; plus perfect-prediction cases (multi-video too) and one fixed "
+             "two-video package case; distinct = distinct eval driver line with >= 1 positive pair",
         assumptions=[
             "prediction frames contain only PredictedInstance objects; at most one prediction LabeledFrame per frame index",
             "match_score_by='oks' and the default threshold grids (linspace(0.5,0.95,10), linspace(0,1,101), linspace(1,10,10))",
